@@ -234,21 +234,39 @@ func (w *world17) step(op Op17, probe func(string)) (f *fail17, skipped bool) {
 			if mod(op.B, 6) == 5 {
 				ox, oy = 3, -2
 			}
-			g := image.NewGray(image.Rect(ox, oy, ox+op.W, oy+op.H))
+			// every other time the image is a SubImage of a larger one, so
+			// that the row stride differs from the width
+			padL, padT, padR, padB := 0, 0, 0, 0
+			if op.V&4 != 0 {
+				padL, padT, padR, padB = 1+int(op.V>>3)%3, int(op.V>>5)%3, 1+int(op.V>>7)%4, int(op.V>>9)%2
+				probe("probe.gray_subimage_stride_differs")
+			}
+			big := image.NewGray(image.Rect(ox-padL, oy-padT, ox+op.W+padR, oy+op.H+padB))
+			for i := range big.Pix {
+				big.Pix[i] = byte(r.Intn(256)) // surroundings: must never show up
+			}
 			for y := 0; y < op.H; y++ {
 				for x := 0; x < op.W; x++ {
-					g.SetGray(ox+x, oy+y, color.Gray{px[y][x]})
+					big.SetGray(ox+x, oy+y, color.Gray{px[y][x]})
 				}
 			}
-			img = g
+			img = big.SubImage(image.Rect(ox, oy, ox+op.W, oy+op.H))
 		case 1:
-			g := image.NewRGBA(image.Rect(0, 0, op.W, op.H))
+			pad := 0
+			if op.V&4 != 0 {
+				pad = 2
+				probe("probe.rgba_subimage_stride_differs")
+			}
+			g := image.NewRGBA(image.Rect(-pad, -pad, op.W+pad, op.H+pad))
+			for i := range g.Pix {
+				g.Pix[i] = byte(r.Intn(256))
+			}
 			for y := 0; y < op.H; y++ {
 				for x := 0; x < op.W; x++ {
 					g.SetRGBA(x, y, color.RGBA{px[y][x], px[y][x], px[y][x], 255})
 				}
 			}
-			img = g
+			img = g.SubImage(image.Rect(0, 0, op.W, op.H))
 		case 2:
 			// alpha: fully transparent pixels are white whatever their colour,
 			// opaque gray pixels keep their value
@@ -527,6 +545,76 @@ func (w *world17) step(op Op17, probe func(string)) (f *fail17, skipped bool) {
 	return nil, false
 }
 
+func maxI(a, b int) int {
+	if a > b {
+		return a
+	}
+	return b
+}
+
+func minI(a, b int) int {
+	if a < b {
+		return a
+	}
+	return b
+}
+
+// globalRowModel is the documented row method of the global-histogram
+// binariser: 32-bucket histogram of the row, the tallest peak and the peak
+// that maximises count x distance^2, rejection when they are at most two
+// buckets apart, the valley between them that maximises
+// (x-first)^2 * (second-x) * (tallest - count[x]) scanning down from the
+// second peak, black point = valley * 8; then the -1 4 -1 sharpening filter
+// with weight 2 on interior pixels (edge pixels stay white), or a plain
+// comparison for rows shorter than 3.
+func globalRowModel(lum []int) ([]bool, bool) {
+	var b [32]int
+	for _, v := range lum {
+		b[v>>3]++
+	}
+	first, firstSize, tallest := 0, 0, 0
+	for x := 0; x < 32; x++ {
+		if b[x] > firstSize {
+			first, firstSize = x, b[x]
+		}
+		if b[x] > tallest {
+			tallest = b[x]
+		}
+	}
+	second, score := 0, 0
+	for x := 0; x < 32; x++ {
+		d := x - first
+		if sc := b[x] * d * d; sc > score {
+			second, score = x, sc
+		}
+	}
+	if first > second {
+		first, second = second, first
+	}
+	if second-first <= 2 {
+		return nil, false
+	}
+	valley, vscore := second-1, -1
+	for x := second - 1; x > first; x-- {
+		ff := x - first
+		if sc := ff * ff * (second - x) * (tallest - b[x]); sc > vscore {
+			valley, vscore = x, sc
+		}
+	}
+	bp := valley << 3
+	out := make([]bool, len(lum))
+	if len(lum) < 3 {
+		for x, v := range lum {
+			out[x] = v < bp
+		}
+		return out, true
+	}
+	for x := 1; x < len(lum)-1; x++ {
+		out[x] = (lum[x]*4-lum[x-1]-lum[x+1])/2 < bp
+	}
+	return out, true
+}
+
 func matrixEq(a, b *gozxing.BitMatrix) bool {
 	if a.GetWidth() != b.GetWidth() || a.GetHeight() != b.GetHeight() {
 		return false
@@ -616,12 +704,37 @@ func (w *world17) binarize(op Op17, s gozxing.LuminanceSource, m *viewModel, pro
 			if !isNotFound(err) {
 				return fail("error-kind", "GetBlackRow returned %T %v", err, err)
 			}
+			lum := make([]int, m.w)
+			for x := range lum {
+				lum[x] = int(m.at(x, y))
+			}
+			if _, ok := globalRowModel(lum); ok {
+				return fail("row-rejected", "GetBlackRow(%d) reported no contrast although the row's histogram has two separated peaks", y)
+			}
 			continue
 		}
 		if row == nil || row.GetSize() < m.w {
 			return fail("row", "GetBlackRow returned an array shorter than the width")
 		}
 		arr = row
+		if !bl {
+			// the documented sharpened threshold, for arbitrary grey rows
+			lum := make([]int, m.w)
+			for x := range lum {
+				lum[x] = int(m.at(x, y))
+			}
+			exp, ok := globalRowModel(lum)
+			if !ok {
+				return fail("row-contrast", "GetBlackRow(%d) returned a row although the row's histogram has no two separated peaks", y)
+			}
+			for x := 0; x < m.w; x++ {
+				if row.Get(x) != exp[x] {
+					l, c, rr := lum[maxI(x-1, 0)], lum[x], lum[minI(x+1, m.w-1)]
+					return fail("row-grey", "GetBlackRow(%d) pixel %d: neighbourhood %d,%d,%d gives black=%v, the sharpened-threshold model says %v (width %d)", y, x, l, c, rr, row.Get(x), exp[x], m.w)
+				}
+			}
+			probe("probe.grey_black_row_checked")
+		}
 		if bl {
 			// sharpened threshold on a bilevel row: interior pixel black iff
 			// luminance 0; the two edge pixels are never set (width >= 3)
